@@ -122,6 +122,10 @@ def gen_metadata(rng, depth=0, allow_empty=False):
             md = json.loads(json.dumps(_LAST_MD[0]))    # the same again
         elif k == 2:
             md = {'revision': 1, 'ok': True, 'ratio': 2.0, 'n': 0}
+        elif k == 4 and rng.chance(0.3):
+            # large values of one recurring length (texts of equal size, one
+            # after another)
+            md = {'blob': rng.choice('abcdef') * 5000}
         elif k == 3 and rng.chance(0.2):
             # deeply nested / long
             inner = {'leaf': [1, 'x']}
@@ -231,6 +235,10 @@ def gen_content_op(rng, name, scope_enc, pool=None, big=False):
         elif big and rng.chance(0.08):
             body = rng.choice([b'+l\n', b'-l\r\n', b'\n']) * \
                 rng.choice([65535, 65536, 70001])
+        elif big and rng.chance(0.1):
+            # exact sizes around powers of two (with the final newline)
+            body = b'x' * (rng.choice([2 ** 16, 2 ** 17, 2 ** 12]) +
+                           rng.choice([-2, -1, 0, 1])) + b'\n'
 
         if rng.chance(0.04 if not big else 0.3):
             k = rng.choice([95, 96, 97, 1023, 1024, 1025, 4095, 4096, 4097,
@@ -623,5 +631,9 @@ def gen_stream_extras(rng):
     if rng.chance(0.1):
         # a second, unrelated reader alive and advanced alternately
         d['shadow'] = rng.below(50)
+
+    if rng.chance(0.05):
+        # a reader subclass that overrides the constructor only
+        d['own_ctor'] = True
 
     return d
